@@ -127,13 +127,16 @@ func perturb(seed uint64, intensity int) func(string, *am.Func) {
 
 func init() {
 	register(&Monitor{
-		ID:    "C11",
-		Race:  true,
-		Cases: func(t string) int { return tierN(t, 3000, 60000) },
+		ID:   "C11",
+		Race: true,
+		// a use of a run-once function that never returns observes nothing
+		CrashProps: []string{"C11", "C06"},
+		Cases:      func(t string) int { return tierN(t, 3000, 60000) },
 		Rule: "sequential histories (5 of 8 cases): 4-12 operations (Call on varying targets, Convert, Redefine, call of a redefined function) over one world in which 1-3 converters at chain depth 1-4 are run-once (value-returning or failing), needed up to 3 times within a call; " +
 			"oracle: each run-once body executes at most once over the history and every value any body ever receives from a run-once function stems from its execution #0; a failing run-once function yields the identical error value on every later need. " +
 			"concurrent histories (3 of 8): 4-12 goroutines first-use the same run-once converter simultaneously (GOMAXPROCS 1/2/4/16, yields/sleeps injected at the library's memo check / call / store hook points and inside the body); " +
 			"oracle: execution counter <= 1; porcupine checks the recorded history {exec(id) by the body, use(id) by each call} with real-time intervals against a write-once-register model (exec legal only on the empty register, use must observe the stored id); race detector silent. " +
+			"one case in 15: two run-once converters shared by concurrent calls whose converter graphs nest them in opposite order (A needs B's output in one kind of call, B needs A's in the other), fresh functions per round, yields/sleeps at the hook points incl. the entry of argument resolution: every call returns successfully, each body ran at most once. " +
 			"non-trivial = a run-once function was needed by >= 2 operations",
 		Assumptions: []string{"porcupine histories are short (<= 40 operations); a checker timeout is inconclusive", "race freedom is judged only on the interleavings the race detector observed"},
 		Run:         runC11,
@@ -199,6 +202,9 @@ func onceScenario(r *rand.Rand, failP float64) (Scenario, []FuncSpec) {
 
 func runC11(c *CaseCtx) (res CaseResult) {
 	r := caseRand(c.Seed, "C11", c.Idx)
+	if c.Idx%15 == 4 {
+		return runCrossNestedOnce(c, r)
+	}
 	if c.Idx%8 >= 5 {
 		return runC11Concurrent(c, r)
 	}
@@ -582,13 +588,16 @@ func runC11Concurrent(c *CaseCtx, r *rand.Rand) (res CaseResult) {
 
 func init() {
 	register(&Monitor{
-		ID:    "C12",
-		Race:  true,
-		Cases: func(t string) int { return tierN(t, 1200, 20000) },
+		ID:   "C12",
+		Race: true,
+		// a concurrent call that never returns has no outcome at all
+		CrashProps: []string{"C12", "C06"},
+		Cases:      func(t string) int { return tierN(t, 1200, 20000) },
 		Rule: "per case one shared world: one target Func with default options, k converter Funcs (ConverterFunc, raw Converter, ConverterGen), one shared option slice holding every option constructor " +
 			"(Named, NamedSubtype with mixed-case names, Typed, TypedSubtype, Converter, ConverterFunc, ConverterGen, FilterInput/Output, Logger, FuncName, FuncOnce), a shared redefined function, shared Input()/Output() value sets and Value.Arg(); " +
 			"4-16 goroutines x 4-8 rounds each do Call / Convert / Redefine / call-of-shared-redefined with the shared options plus their own per-call input ids (GOMAXPROCS 2/4/16, yields injected at hook points); scenarios from the outcome-stable classes, built functions excluded. " +
 			"Oracle: no race-detector report; each call's outcome class equals the sequential reference; cross-call isolation (provenance of every target execution's arguments reaches one call's ids or shared constants only); C01 monitor over all events. " +
+			"One case in 11 is the cross-nested run-once family (see C11): concurrent calls that need two shared run-once converters in opposite nesting order must all return successfully. " +
 			"non-trivial = >= 4 goroutines shared >= 1 converter and >= 1 option value",
 		Assumptions: []string{"the monitor's own log and provenance table are mutex protected and updated inside the bodies; it was validated to be report-free on the repaired tree", "races are judged on observed interleavings only"},
 		Run:         runC12,
@@ -598,6 +607,9 @@ func init() {
 
 func runC12(c *CaseCtx) (res CaseResult) {
 	r := caseRand(c.Seed, "C12", c.Idx)
+	if c.Idx%11 == 7 {
+		return runCrossNestedOnce(c, r)
+	}
 	s, fam := stableScenario(r)
 	noBuilt := func(f *FuncSpec) {
 		if f.InForm == FormBuilt {
@@ -950,4 +962,112 @@ func viaOf(o Outcome, redefined []*am.Func) []Label {
 		via = append(via, declaredInputs(rf)...)
 	}
 	return via
+}
+
+// runCrossNestedOnce: two run-once converters A:(S1,Y)->AO and B:(S2,Z)->BO
+// shared by two kinds of concurrent calls whose converter graphs nest them in
+// OPPOSITE order. Kind 1 wants AO and is given Z: A needs Y, which P makes
+// from BO, which B makes from the supplied Z. Kind 2 wants BO and is given Y:
+// B needs Z, which Q makes from AO, which A makes from the supplied Y. Every
+// call is satisfiable on its own and a sequential execution succeeds, so each
+// concurrent call must return, successfully, and A and B run at most once.
+// Fresh functions per round; yields/sleeps at the library's hook points
+// (including the entry of argument resolution) widen the windows.
+func runCrossNestedOnce(c *CaseCtx, r *rand.Rand) (res CaseResult) {
+	t := distinctTypes(r, 6)
+	S1, S2, Y, Z, AO, BO := t[0], t[1], t[2], t[3], t[4], t[5]
+	res.Key = fmt.Sprintf("cross-nested-once %v", t)
+	res.NonTrivial = true
+	res.obs("family.cross-nested-once", 1)
+	procs := []int{2, 4, 16}[r.Intn(3)]
+	old := runtime.GOMAXPROCS(procs)
+	defer runtime.GOMAXPROCS(old)
+	seed := r.Uint64()
+	var ctr uint64
+	casePointHook = func(p string, f *am.Func) {
+		if p != "reach.enter" && !strings.HasPrefix(p, "direct.") {
+			return
+		}
+		x := atomic.AddUint64(&ctr, 1)
+		h := (x ^ seed) * 0x9e3779b97f4a7c15
+		h ^= h >> 29
+		switch h % 8 {
+		case 0, 1, 2:
+			runtime.Gosched()
+		case 3, 4:
+			time.Sleep(time.Duration(10+h%100) * time.Microsecond)
+		}
+	}
+	defer func() { casePointHook = nil }()
+	rounds := tierReps(c.Tier, 6, 12)
+	for round := 0; round < rounds; round++ {
+		w := NewWorld()
+		once := func(s FuncSpec) FuncSpec { s.Once = true; return s }
+		specs := []FuncSpec{once(posFn([]int{S1, Y}, []int{AO})), once(posFn([]int{S2, Z}, []int{BO})), posFn([]int{BO}, []int{Y}), posFn([]int{AO}, []int{Z})}
+		var fs []*Built
+		for i, sp := range specs {
+			b, err := w.Build(i, sp, r)
+			if err != nil {
+				res.Skip = "instantiate"
+				return res
+			}
+			fs = append(fs, b)
+		}
+		t1, err1 := w.Build(-1, posFn([]int{AO}, nil), r)
+		t2, err2 := w.Build(-2, posFn([]int{BO}, nil), r)
+		if err1 != nil || err2 != nil {
+			res.Skip = "instantiate"
+			return res
+		}
+		G := 2 + r.Intn(5)
+		start := make(chan struct{})
+		var wg sync.WaitGroup
+		outs := make([]Outcome, G)
+		for g := 0; g < G; g++ {
+			wg.Add(1)
+			call := 100*round + g
+			typed := func(ty int) am.Arg {
+				return InputArg(Label{Type: ty}, w.FreshInput(call, ty, Label{Type: ty}))
+			}
+			var tgt *Built
+			var args []am.Arg
+			if g%2 == 0 {
+				tgt = t1
+				args = []am.Arg{typed(S1), typed(S2), typed(Z), am.ConverterFunc(fs[0].Func), am.ConverterFunc(fs[1].Func), am.ConverterFunc(fs[2].Func)}
+			} else {
+				tgt = t2
+				args = []am.Arg{typed(S1), typed(S2), typed(Y), am.ConverterFunc(fs[0].Func), am.ConverterFunc(fs[1].Func), am.ConverterFunc(fs[3].Func)}
+			}
+			go func(g int, tgt *Built, args []am.Arg) {
+				defer wg.Done()
+				<-start
+				outs[g] = DoCall(nil, tgt.Func, args)
+			}(g, tgt, args)
+		}
+		close(start)
+		wg.Wait()
+		res.Evals += G
+		res.obs("concurrent_operations", int64(G))
+		res.obs("cross_nested_rounds", 1)
+		det := map[string]interface{}{"types": fmt.Sprint(t), "goroutines": G, "gomaxprocs": procs, "round": round}
+		for g, o := range outs {
+			switch o.Class {
+			case ClsPanic:
+				res.violate("C06", "panic/concurrent-"+crashKey(o.Panic), "concurrent call panicked: "+o.Panic, det)
+			case ClsOK:
+			default:
+				res.violate("C12", "concurrent-outcome-differs", fmt.Sprintf("concurrent call %d (kind %d) ended %s (%s); a sequential execution of the same call succeeds", g, 1+g%2, o.Class, firstLine(errStr(o.Err))), det)
+			}
+		}
+		for i := 0; i < 2; i++ {
+			if n := w.Execs(i); n > 1 {
+				res.violate("C11", "once-reexecuted-concurrently", fmt.Sprintf("shared run-once converter c%d executed %d times", i, n), det)
+			}
+		}
+		for _, msg := range checkBinding(w, w.EventsFrom(0), BindingOpts{}) {
+			res.violate("C01", "binding/"+bindingKind(msg), "concurrent workload: "+msg, det)
+		}
+	}
+	res.Sample = map[string]interface{}{"family": "cross-nested-once", "types": fmt.Sprint(t)}
+	return res
 }
